@@ -82,3 +82,8 @@ from .functions import (
     nonzero,
     reshape
 )
+
+# verification tooling: trace top-level stores and two-operand arithmetic when FXPMATH_VERIF_TRACE names a file
+if os.environ.get('FXPMATH_VERIF_TRACE'):
+    from . import _verif
+    _verif.install()
